@@ -403,10 +403,23 @@ def check(prog, rep, tier):
                         isinstance(x, ast.Constant) and isinstance(x.value, (bytes, str)) and x.value not in (b'', '')
                         for x in sides):
                     bad = c
+            # other looks at the remaining buffer as a whole: content tests and reads counted from its end
+            if isinstance(c, ast.Call) and isinstance(c.func, ast.Attribute) and src_of(c.func.value) in cur and \
+                    c.func.attr in ('strip', 'lstrip', 'rstrip', 'startswith', 'endswith', 'count', 'find', 'rfind',
+                                    'index', 'replace', 'split'):
+                bad = bad or c
+            if isinstance(c, ast.Subscript) and src_of(c.value) in cur and isinstance(c.ctx, ast.Load):
+                sl = c.slice
+                neg = lambda e: isinstance(e, ast.UnaryOp) and isinstance(e.op, ast.USub) and isinstance(e.operand, ast.Constant)
+                if neg(sl) or (isinstance(sl, ast.Slice) and sl.lower is not None and neg(sl.lower)):
+                    bad = bad or c
         if bad is not None:
-            rep.bad('R15.b', lk, file=f.file, line=bad.lineno, func=f.qualname,
-                    found='the whole remaining buffer is compared with a constant: %s' % src_of(bad),
-                    expected='decisions depend on the current element only', key=lk)
+            bkey = lk if isinstance(bad, ast.Compare) and src_of(bad).replace(' ', '') in (
+                "nlri_data==b'\\x00\\x00'", "b'\\x00\\x00'==nlri_data") else '%s:%s' % (lk, src_of(bad)[:50])
+            rep.bad('R15.b', bkey, file=f.file, line=bad.lineno, func=f.qualname,
+                    found='the remaining buffer as a whole decides or is read from its end: %s - what follows an element '
+                          'changes how the element is decoded' % src_of(bad),
+                    expected='decisions depend on the current element only', key=bkey)
         else:
             rep.ok('R15.b', lk, file=f.file, line=w.lineno, nontrivial=False)
         # ---- R15.c
